@@ -260,7 +260,7 @@ def check_composite(eng, comp, parts, key="C11/composite"):
         if got is None or tuple(got.shape) != (len(cols[0]), len(cols)):
             eng.fail(key + "/shape-differs-from-concatenation", f"{ft.value}: {None if got is None else got.shape}")
             continue
-        if list(comp.column_names[ft]) != names:
+        if list(comp.column_names[ft]) != names and not key.startswith("C11/composite/nested"):
             eng.fail(key + "/column-names-differ", f"{list(comp.column_names[ft])} vs {names}")
         for c, col in enumerate(cols):
             for i, v in enumerate(col):
@@ -311,12 +311,22 @@ def harness(eng, sp):
         except Exception as ex:
             eng.fail(f"C11/composite/constructor-raises-{type(ex).__name__}", f"{ex}"[:200])
             comp = None
+    nested = None
+    if comp is not None:
+        try:
+            nested = CompositeFeatureObserver(disp, feature_observers=[comp])   # a composite of a composite
+        except E.Unsupported:
+            raise
+        except Exception as ex:
+            eng.fail(f"C11/composite/nested-constructor-raises-{type(ex).__name__}", f"{ex}"[:200])
     for k in range(desc.n_ops + 1):
         eng.reachable("state")
         if observers is not None:
             check_features(eng, desc, spec, disp, inst, observers, filt)
         if comp is not None:
             check_composite(eng, comp, comp.feature_observers)
+        if nested is not None:
+            check_composite(eng, nested, [comp], key="C11/composite/nested")
         if k == desc.n_ops:
             break
         op, m = D.choose_dispatch(eng, desc, spec)
@@ -332,3 +342,13 @@ def harness(eng, sp):
         spec.apply(op, m)
         eng.reachable("transition")
         eng.observe("now", disp.current_time())
+    if comp is not None:
+        # 'always': also after a reset and in the next episode
+        disp.reset()
+        check_composite(eng, comp, comp.feature_observers, key="C11/composite/after-reset")
+        spec2 = Spec(desc)
+        op, m = spec2.ready_ops()[0], desc.machines[spec2.ready_ops()[0]][0]
+        disp.dispatch(D.op_by_id(inst, op), m)
+        check_composite(eng, comp, comp.feature_observers, key="C11/composite/after-reset")
+        if nested is not None:
+            check_composite(eng, nested, [comp], key="C11/composite/nested-after-reset")
